@@ -8,8 +8,9 @@ CONSTANTS
   DevMode = FALSE
   MaxVer = 1
   Scratch = TRUE
+  DestKinds <- PlainOnly
   Bug = "none"
 INIT Init
 NEXT Next
-INVARIANTS TypeOK ExclusiveBuffer Isolated MutexProtectsCache LiteralsAreAVersion UniqueIds
+INVARIANTS TypeOK ExclusiveBuffer Isolated OwnDestinationOnly MutexProtectsCache LiteralsAreAVersion UniqueIds
 CHECK_DEADLOCK FALSE
